@@ -180,6 +180,16 @@ class Graph(object):
         self.cube_keys = t is not None and t.draw(6) == 0
         # ... and a relay line (see the deploy engine), alone or among the
         # other nets
+        # ternary keys: each net's key has its own don't-care bits anywhere
+        # in a small key space (as keys cut from a bit field with unused
+        # fields have), no two nets' keys matching a common packet
+        self.ternary_bits = 0
+        if t is not None and not self.cube_keys and t.draw(6) == 0:
+            self.ternary_bits = 5 + t.draw(3)
+            self.ternary = []
+            self.dense_bits = 0
+            self.high_keys = False
+            self.new_p = [0.1, 0.25][t.draw(2)]
         self.cube_k = 1 + t.draw(3) if self.cube_keys else 0
         self.cube_sparse = self.cube_keys and bool(t.draw(2))
         self.relay = self.cube_keys and bool(t.draw(2))
@@ -253,6 +263,8 @@ def add_net(t, g, par, max_fanout=12):
     net = HNet(src, sinks, weight, ident=ident)
     g.nets.append(net)
     km = dense_key(t, g) if g.dense_bits else None
+    if km is None and g.ternary_bits:
+        km = ternary_key(t, g)
     if km is None and g.high_keys and ident < 255:
         # orthogonal keys told apart by their *top* byte (so that keys lie on
         # both sides of 2**31 and differ in bit 31 among others)
@@ -323,6 +335,24 @@ def assign_cube_keys(t, g):
         for net in remaining:
             g.net_keys[net] = (base | spare, 0xffffffff)
             spare += 1
+
+
+def ternary_key(t, g):
+    """A key/mask over g.ternary_bits low bits with 0-3 don't-care bits at
+    drawn positions that matches no packet an earlier net's key matches
+    (None when no room was found)."""
+    db = g.ternary_bits
+    full = (1 << db) - 1
+    upper = 0xffffffff & ~full
+    for _ in range(12):
+        mask = full
+        for _x in range(t.draw_small(4, 0.6)):
+            mask &= ~(1 << t.draw(db))
+        key = t.draw(1 << db) & mask
+        if all((key ^ k2) & mask & m2 for k2, m2 in g.ternary):
+            g.ternary.append((key, mask))
+            return key, upper | mask
+    return None
 
 
 def dense_key(t, g):
